@@ -20,7 +20,7 @@ CLAIMED = {
  "C03": dict(engine="olcsim", level="exploration", design="DESIGN.md §6 C03",
    text="2-4 QSBR-registered simulated threads x 1-4 get/insert/remove on a real olc_db prefilled to a structural boundary (leaf split, prefix split, growth/shrink at 4/16/48, collapse with leaf or inner-node survivor, "
         "root transitions); every lock-word and protected-field access is a scheduling point; histories stamped with the scheduler's step counter are checked per key with a Wing-Gong linearizability search; "
-        "a post-run single-threaded sweep must agree with an admissible final state. Schedules: sequential (both thread orders), preemption-bounded (1-3), conflict-directed (preempt next to an access of a location another thread writes, recorded on the sequential schedules), PCT, random walk, round robin.",
+        "a post-run single-threaded sweep must agree with an admissible final state. Schedules: sequential (both thread orders), preemption-bounded (1-3), conflict-directed (preempt next to an access of a location another thread writes, recorded on the sequential schedules), PCT, random walk, round robin; plus a systematic job: scenario templates (a structural change, a writer next to or below it, a reader below it) each run under a grid of ~4000 double preemptions.",
    note="32 schedules per program; <= 4 threads, <= 16 concurrent operations, trees <= ~60 keys. " + SC,
    technique="deterministic simulation: seeded scheduler over parked OS threads + per-key linearizability checking"),
  "C04": dict(engine="olcsim", level="exploration", design="DESIGN.md §6 C04",
